@@ -58,8 +58,10 @@ FILTERS = ['(= .a 1)', '(!= .k "x")', '(< .a 2)', '.flag', '(>= .a 1)', '(and (<
            '(or .flag (= .a 2))', '(= (size .arr) 2)']
 SELECTS = ['.a', '.b=B', '.k', '(size .arr)=n', '.arr', '.', '(get . "a")=ga', '(? (= .a 1) "one" "other")=c',
            '(default .a .b 0)=d', '.b.c=bc', '.arr#0=first', '(map .arr .a)=as', '(filter .arr (= .k "x"))=xs', '.a=dup', '.k=dup',
-           '(group_by .arr .k)=g', '(group_by .arr (stringify .a))=ga']
-SORTS = ['.a', '.b=desc', '.k=ASC', '.a=DESC', '.k', '(size .arr)=Desc', '.b']
+           '(group_by .arr .k)=g', '(group_by .arr (stringify .a))=ga',
+           # references to the values selected so far, by name (an unnamed selection is named by its text; a missing name gives nothing; of two equal names the ... the code decides, the model follows)
+           '/B/=rb', '/.a/=ra', '/dup/=rd', '(default /n/ /c/ "none")=rn', '/nosuch/=rx']
+SORTS = ['.a', '.b=desc', '.k=ASC', '.a=DESC', '.k', '(size .arr)=Desc', '.b', '/B/', '/.a/=desc', '/n/']
 GROUPS = ['.k', '(? (= .a 1) "one" "rest")', '.b', '(map .arr .k)']
 SPLITS = ['.arr', '(filter .arr (= .k "x"))']
 SETS = [('x=1', ':x=vx'), ('@m=.a', '@m=vm'), ('y="s"', ':y=vy'), ('@am=(map .arr .a)', '@am=vam')]
